@@ -1945,7 +1945,9 @@ def drv_bias(case, rnd, ctx):
     big = max(case["g"], case["l"]) > 30000
     ops = ["desubroutinize", "remove_unused_subroutines", "remove_hints", "convert"] + ([] if big else ["roundtrip"] + ([] if cff2 else ["subset"]))
     for op in ops:
-        res = _apply(ctx, data0, op)
+        # 34k-subroutine fonts: monitored run only (load-order effects do not depend on the INDEX size and
+        # are covered by the 1240-boundary fonts, which get both runs)
+        res = _apply1(ctx, data0, op) if big else _apply(ctx, data0, op)
         if res is None:
             continue
         data1, mode = res
